@@ -58,6 +58,7 @@ def r07_2(rep, M, rid):
         return out
     tm = [c for c in ast.walk(fn) if isinstance(c, ast.Call) and SR.resolver(M, GS)(c.func) in ("numpy.dot", "numpy.matmul")]
     tnames = {x.id for c in tm for a in c.args for x in ast.walk(a) if isinstance(x, ast.Name)}
+    tnames |= {x.id for b in ast.walk(fn) if isinstance(b, ast.BinOp) and isinstance(b.op, ast.MatMult) for a in (b.left, b.right) for x in ast.walk(a) if isinstance(x, ast.Name)}
     t_owner = set().union(*[src_of(n, "transformation") for n in tnames]) if tnames else set()
     letter_loop = [s for s in ast.walk(fn) if isinstance(s, ast.Assign) and isinstance(s.targets[0], ast.Name)
                    and isinstance(s.value, ast.Call) and isinstance(s.value.func, ast.Attribute) and s.value.func.attr == "get"
@@ -70,8 +71,7 @@ def r07_2(rep, M, rid):
     # only the relabelling that produces the *returned* letters counts (candidates are relabelled too while they are ranked): it follows
     # the recording of the chosen candidate
     if best:
-        first_best = min(b.lineno for b in best)
-        letter_loop = [s for s in letter_loop if s.lineno > first_best]
+        letter_loop = [s for s in letter_loop if fl.cfg.reaches(fl.node_of(best[0]), fl.node_of(s))]
     p_owner = set().union(*[src_of(s.value.func.value.id, "permutations") for s in letter_loop]) if letter_loop else set()
     if t_owner and t_owner == p_owner == b_owner and len(t_owner) == 1:
         rep.ok(rid, f"applied matrix, applied letter permutation and recorded _best_transform are all `{sorted(t_owner)[0]}`")
@@ -80,7 +80,9 @@ def r07_2(rep, M, rid):
                       f"_best_transform = {sorted(b_owner)}: the returned letters do not belong to the returned positions", M.where(GS))
     # both results are returned together in the non-identity branch
     rets = [r for r in ast.walk(fn) if isinstance(r, ast.Return) and isinstance(r.value, ast.Tuple) and len(r.value.elts) == 2]
-    last = max(rets, key=lambda r: r.lineno) if rets else None
+    # the return of the branch that records the chosen (non-identity) candidate
+    after_best = [r for r in rets if best and fl.cfg.reaches(fl.node_of(best[0]), fl.node_of(r))]
+    last = (after_best[-1] if after_best else (max(rets, key=lambda r: r.lineno) if rets else None))
     if last is not None:
         at = fl.node_of(last)
         s0 = fl.slice(last.value.elts[0], at)
